@@ -70,3 +70,9 @@ claim("C25", "property-based testing: generated modules x generated skip lists p
 claim("C26", "property-based testing: generated multi-module components x skip maps x injection plans; oracle (1) = independently decoded per-module instruction lists concatenated in module order, also after reset; oracle (2) = differential: modules extracted from the component instrumented through ComponentIterator vs the same modules instrumented alone through ModuleIterator (decoded content, rejected calls, encode panics)",
       "Generated-input search over components with 1-4 generated core modules (incl. modules without local functions), skip maps of every shape (missing entries, unsorted lists) and plans of 0-8 injections of all modes issued in one instrumenting pass on each side.",
       "Trusted: wasmparser decoder; for part (2) the library's module-level path is the reference, as the statement prescribes. Block types introduced by the function-exit lowering are compared structurally (their index among duplicate identical types is C04's subject).", "DESIGN.md 5/C26")
+claim("C04", "property-based testing with a metamorphic oracle: every generated scenario (edit history over the C06-C08 alphabets, or instrumentation plan of every mode through every path, plus type additions hitting the de-duplication map) is built from scratch and encoded 3 times in-process (fresh hasher keys per build) and in 4 separate worker processes on the same seed (8 thorough); outputs must be byte-identical",
+      "Generated-input search; in-process rebuilds compare bytes (or panic signatures), extra processes compare a per-case output hash with the first process's record. Non-trivial = scenario with at least one edit or injection.",
+      "Trusted: the scenario generators shared with C05-C08/C15-C22; FNV-64 hash for the cross-process comparison (collisions would hide a difference, never raise one). Samples processes, cannot enumerate them.", "DESIGN.md 5/C04")
+claim("C05", "property-based testing with a metamorphic oracle: generated scenario (edit history or instrumentation plan, as C04) -> encode three times, bytes must be equal; the scenario rebuilt from the same tape -> pull_side_effects() then encode() must give the same bytes again",
+      "Generated-input search. The class 'history that re-indexes an index space' is a listed known finding (the ID maps are re-applied by every encode): the main domain uses the non-shifting alphabet plus all instrumentation plans, the class is probed separately (1/8 of the cases, unsteered).",
+      "Trusted: the scenario generators shared with C04. A first encode that fails loudly discards the case (counted).", "DESIGN.md 5/C05")
